@@ -75,6 +75,8 @@ static void build(void) {
     add(tier, "c0r y x0", 1, 2, 0); add(tier, "c0r y x0", 2, 2, 0); add(tier, "c0y x0 y y", 2, tier ? 3 : 2, 0);
     add(tier, "c0y c0y x1 j0", 2, 2, 0); add(tier, "c0y c0y t1 x0", 2, tier ? 2 : 1, 0); add(tier, "cny cny y", 2, 2, 0);
     add(tier, "c0y d0 c0y x1 y y c0r t2", 1, 2, 1);
+    /* the target is itself blocked in a join when it is try-joined / timed-joined / joined / detached */
+    for (int W = 1; W <= 2; W++) { add(tier, "c0n t0", W, 2, 0); add(tier, "c0n d0", W, 2, 0); add(tier, "c0n j0", W, W == 1 ? 2 : 1, 0); add(tier, "c0n x0 y y y", W, 1, 0); add(tier, "c0n y t0 c0r j1", W, 1, 0); }
   }
 }
 #endif
@@ -88,12 +90,15 @@ static myth_thread_t th[8]; static int nth, detached_attr[8], reaped[8], yields_
 static volatile int fin[8], started[8];
 static const size_t stack_of[] = { 0, 4096, 8192, 12288, 65536, 20000, 70000, 16384, 4097, 20480 };
 
+static void * nested_child(void * a) { (void)a; myth_yield(); myth_yield(); return (void *)4242; }
 static void * body(void * a) {
   int i = (int)(long)a;
   volatile unsigned char canary[96];
   started[i]++;
   for (int k = 0; k < 96; k++) canary[k] = (unsigned char)(i * 7 + k);
-  if (yields_in_body[i]) myth_yield();
+  if (yields_in_body[i] == 2) {   /* nested: the thread itself blocks in a join of a child that yields (status "blocked" while it waits) */
+    myth_thread_t c = myth_create(nested_child, 0); void * r = 0; myth_join(c, &r); MV_CHECK(r == (void *)4242, "nested child delivered %p", r);
+  } else if (yields_in_body[i]) myth_yield();
   for (int k = 0; k < 96; k++) MV_CHECK(canary[k] == (unsigned char)(i * 7 + k), "thread %d: local data changed across a switch (stack reused or overwritten while in use)", i);
   mv_point(&fin[i], sizeof(int));
   fin[i] = 1;
@@ -118,7 +123,7 @@ static void run(int tier, int prog) {
     switch (tok[0]) {
     case 'c': {
       int me = nth++;
-      yields_in_body[me] = tok[2] == 'y';
+      yields_in_body[me] = tok[2] == 'y' ? 1 : (tok[2] == 'n' ? 2 : 0);
       if (tok[1] == 'n') {
 	myth_thread_attr_t a; memset(&a, 0x5A, sizeof a); myth_thread_attr_init(&a);
 	myth_thread_attr_setdetachstate(&a, PTHREAD_CREATE_DETACHED);
